@@ -94,7 +94,8 @@ def mirror_refresh():
         sh(f"git worktree add -q --detach {repo} HEAD", "/repo")
     head = sh("git rev-parse HEAD", "/repo")[1].strip()
     sh(f"git checkout -q --detach {head} && git checkout -- .", repo)
-    sh(f"rsync -a --delete --exclude 'harness/target*' --exclude work --exclude evidence --exclude replay --exclude .git {ROOT}/ {MIRROR}/verif/", "/")
+    # the COMMITTED state of /verif (edits in progress must not leak into a screening run)
+    sh(f"mkdir -p {MIRROR}/snap && rm -rf {MIRROR}/snap/* && git -C {ROOT} archive HEAD | tar -x -C {MIRROR}/snap && rsync -a --delete --exclude 'harness/target*' --exclude work --exclude evidence --exclude replay --exclude certs {MIRROR}/snap/ {MIRROR}/verif/ && mkdir -p {MIRROR}/verif/certs && rsync -a {ROOT}/certs/ {MIRROR}/verif/certs/", "/")
     sh(f"sed -i 's#/repo/#{repo}/#g' {MIRROR}/verif/harness/osv/Cargo.toml", "/")
     sh(f"sed -i 's#^REPO = \"/repo\"#REPO = \"{repo}\"#' {MIRROR}/verif/check", "/")
     return repo, os.path.join(MIRROR, "verif")
